@@ -26,11 +26,14 @@ def register(reg):
     # ---- downsample_1d (mean): validation + the proved kernel; the incomplete remainder is dropped
     c = Contract(S + "downsample_1d", props=["C14"],
                  params={"array": Arr("real", "f4"), "factor": Int(), "method": Str()},
-                 cases={"method": ["mean"]}, ret=Arr("real", "f4"),
+                 cases={"method": ["mean", "median"]}, ret=Arr("real", "f4"),
                  raises=[Raises("ValueError", when="factor <= 0 or factor > len(array)")])
     c.ensure("groups", "len(result) == len(array) // factor")
-    c.ensure("mean of each full group", "forall(i, 0, len(array) // factor, result[i] == "
-                                        "ssum(arr(array), off(array) + factor * i, 1, factor) / factor)")
+    c.ensure("mean of each full group", "implies(method == 'mean', forall(i, 0, len(array) // factor, result[i] == "
+                                        "ssum(arr(array), off(array) + factor * i, 1, factor) / factor))")
+    # np.median is assumed: med1(contents, first element, count) - what is decided is WHICH elements each output covers
+    c.ensure("median of each full group", "implies(method == 'median', forall(i, 0, len(array) // factor, result[i] == "
+                                          "med1(arr(array), off(array) + factor * i, factor)))")
     reg.add(c)
 
     # ---- downsample_2d_flat (mean): validation + the proved kernel
@@ -117,3 +120,34 @@ _r_sf2 = register
 def register(reg):  # noqa: F811
     _r_sf2(reg)
     register_block_downsample(reg)
+
+
+def register_ts_downsample(reg):
+    """TimeSeries.downsample: groups of the REQUESTED method, header describing the result (C14, C08)."""
+    from pvc.contract import Obj, Real
+    TS = "sigpyproc/timeseries.py::"
+    hdr = Obj("Header", file="sigpyproc/header.py",
+              fields={"nsamples": Int(0), "nchans": Int(1), "tsamp": Real(), "foff": Real(), "fch1": Real(), "tstart": Real(),
+                      "nbits": Int(), "dm": Real()})
+    ts = Obj("TimeSeries", file="sigpyproc/timeseries.py", fields={"_data": Arr("real", "f4"), "_header": hdr})
+    c = Contract(TS + "TimeSeries.downsample", props=["C14", "C08"],
+                 params={"self": ts, "factor": Int(), "filter_method": Str()},
+                 cases={"filter_method": ["mean", "median"]},
+                 requires=["len(self._data) == self._header.nsamples", "factor >= 2"],
+                 raises=[Raises("ValueError", when="factor > len(self._data)")], ret=ts)
+    c.ensure("groups", "len(result._data) == len(self._data) // factor")
+    c.ensure("mean groups", "implies(filter_method == 'mean', forall(i, 0, len(self._data) // factor, result._data[i] == "
+                            "ssum(arr(self._data), off(self._data) + factor * i, 1, factor) / factor))")
+    c.ensure("median groups", "implies(filter_method == 'median', forall(i, 0, len(self._data) // factor, result._data[i] == "
+                              "med1(arr(self._data), off(self._data) + factor * i, factor)))")
+    c.ensure("header describes the result", "result._header.nsamples == len(self._data) // factor and "
+                                            "result._header.tsamp == self._header.tsamp * factor")
+    reg.add(c)
+
+
+_r_sf3 = register
+
+
+def register(reg):  # noqa: F811
+    _r_sf3(reg)
+    register_ts_downsample(reg)
